@@ -88,7 +88,7 @@ def generate(seed, tier, batch):
     n = r.randint(1, 3 if backend == "fock" else 4)
     opts = {}
     if backend == "fock":
-        opts = {"cutoff_dim": r.choice([4, 5])}
+        opts = {"cutoff_dim": r.choice([4, 5]), "pure": r.random() < 0.7}
     nseg = r.choice([1, 2, 2, 3]) if backend != "bosonic" else 1
     free = ["a", "b"][: r.choice([0, 0, 1, 2])]
     measured = []
@@ -114,7 +114,7 @@ def generate(seed, tier, batch):
     junk = {"n": jn, "ops": gen_ops(r, backend, jn, r.randint(1, 4), free=(), feedforward=False, allow_fock_meas=(backend == "fock")), "name": "junk"}
     script = {
         "backend": backend, "opts": opts, "pool": pool, "bind": bind, "junk": junk,
-        "tape": seed, "user_steps": [], "n_engines": r.choice([2, 2, 3]),
+        "tape": seed, "user_steps": [], "n_engines": r.choice([2, 2, 3]), "subset_pick": (r.randrange(1 << 20) if r.random() < 0.4 else None),
         "reset_opts": ({"cutoff_dim": opts["cutoff_dim"] + 1} if backend == "fock" and r.random() < 0.3 else None),
     }
     # compile / optimize calls on user programs between runs
@@ -313,6 +313,26 @@ def nonfault_checks(script, w, R, progs, fp0, e1, ref_state, ref_samples, ref_ap
         if not check_fps(w, fp0, progs, st["do"], feats):
             return
 
+    # ---- run option modes=[subset]: the returned state is the reference state reduced to those modes (same samples)
+    live_n = ref_state.get("num_modes", 0)
+    if live_n >= 2 and script.get("subset_pick") is not None:
+        rr = random.Random("c09-subset:%s" % script["subset_pick"])
+        sub = sorted(rr.sample(range(live_n), rr.randint(1, live_n - 1)))
+        R.outcomes.rewind()
+        w.step("run_list_modes_subset", modes=sub)
+        try:
+            res_sub = R.engine().run(list(progs), args=script["bind"] or None, modes=sub)
+        except Exception as ex:  # noqa
+            w.violation("no-unexpected-exception", "run(modes=subset)", {"exc": type(ex).__name__, "msg": str(ex)[:200], "modes": sub}, feats)
+            return
+        nruns += 1
+        d = subset_diff(ref_state, state_obs(res_sub.state), sub) or samples_diff(ref_samples, samples_obs(res_sub))
+        if d:
+            w.violation("compositional", "run(modes=subset) vs full state", {"modes": sub, "diff": d}, feats)
+            return
+        if not check_fps(w, fp0, progs, "run(modes=subset)", feats):
+            return
+
     # ---- (3) same objects again on a fresh engine, one call per segment
     e2 = R.engine()
     st2, sm2, _ = R.run_chain(e2, progs, "seq")
@@ -429,6 +449,37 @@ def nonfault_checks(script, w, R, progs, fp0, e1, ref_state, ref_samples, ref_ap
         return
     if nruns >= 2:
         w.nontrivial.add(hist_key)
+
+
+def subset_diff(full, sub, positions, tol=1e-8):
+    """compare a state returned for modes=positions with the full state reduced to those positions"""
+    if sub["kind"] != full["kind"] or sub.get("num_modes") != len(positions):
+        return "kind/num_modes %s/%s vs %s/%d" % (sub["kind"], sub.get("num_modes"), full["kind"], len(positions))
+    if sub["names"] != [full["names"][p_] for p_ in positions]:
+        return "mode_names %s vs %s" % (sub["names"], [full["names"][p_] for p_ in positions])
+    n = full["num_modes"]
+    if full["kind"] == "BaseGaussianState":
+        idx = list(positions) + [p_ + n for p_ in positions]
+        pairs = [("means", full["means"][idx], sub["means"]), ("cov", full["cov"][np.ix_(idx, idx)], sub["cov"])]
+    elif full["kind"] == "BaseBosonicState":
+        idx = [i_ for p_ in positions for i_ in (2 * p_, 2 * p_ + 1)]
+        pairs = [("weights", full["weights"], sub["weights"]), ("means", full["means"][:, idx], sub["means"]), ("covs", full["covs"][:, idx][:, :, idx], sub["covs"])]
+    else:
+        dm = full["dm"]
+        keep = [i_ for p_ in positions for i_ in (2 * p_, 2 * p_ + 1)]
+        lab = list(range(2 * n))
+        for m_ in range(n):
+            if m_ not in positions:
+                lab[2 * m_ + 1] = lab[2 * m_]
+        red = np.einsum(dm, lab, keep)
+        pairs = [("dm", red, sub["dm"])]
+    for name, x, y in pairs:
+        x, y = np.asarray(x), np.asarray(y)
+        if x.shape != y.shape:
+            return "%s shape %s vs %s" % (name, x.shape, y.shape)
+        if x.size and float(np.max(np.abs(x - y))) > tol * max(1.0, float(np.max(np.abs(x)))):
+            return "%s differs by %.3g" % (name, float(np.max(np.abs(x - y))))
+    return None
 
 
 def _anc(a):
